@@ -203,12 +203,6 @@ Example C05_ex_two_reads :
      (fun n => negb (N.eqb n 2)) tw_up (fun _ => 0%N) tw_pol tw_rq (fun _ _ => 0%nat) (fun _ l => l)) = Some [1%N].
 Proof. repeat split; vm_compute; reflexivity. Qed.
 
-Example C05_ex_permitted :
-  map (permitted ex_dcf ex_g ex_pol (ex_rq false)) [1; 4; 9]%N = [true; true; false] /\
-  map (permitted ex_dcf ex_g {| pol_pref := Some (PDc 1); pol_token_aware := true; pol_failover := false |} (ex_rq false)) [1; 4; 9]%N
-    = [true; false; false].
-Proof. split; vm_compute; reflexivity. Qed.
-
 (* ---- non-vacuity: the 7-node, 2-datacenter ring of the repository's own tests -----------
    nodes A..G = 1..7; eu = 1, us = 2; racks r1 = 1, r2 = 2; keyspace 0 = NTS {eu:3, us:3} *)
 Definition ex_dcf (n : N) : option N :=
@@ -245,6 +239,12 @@ Example C05_ex_accept :
   plan_matches ex_dcf ex_rackf ex_g ex_ks ex_enabled ex_connected ex_pol (ex_rq true) [1; 7; 4; 5; 2; 3]%N = true /\
   plan_matches ex_dcf ex_rackf ex_g ex_ks ex_enabled ex_connected ex_pol (ex_rq true) [1; 7; 5; 4; 2; 3]%N = false.
 Proof. repeat split; vm_compute; reflexivity. Qed.
+
+Example C05_ex_permitted :
+  map (permitted ex_dcf ex_g ex_pol (ex_rq false)) [1; 4; 9]%N = [true; true; false] /\
+  map (permitted ex_dcf ex_g {| pol_pref := Some (PDc 1); pol_token_aware := true; pol_failover := false |} (ex_rq false)) [1; 4; 9]%N
+    = [true; false; false].
+Proof. split; vm_compute; reflexivity. Qed.
 
 Example C05_ex_groups :
   map (group_of ex_dcf ex_rackf ex_g ex_ks ex_enabled ex_connected ex_pol (ex_rq false)) [1; 2; 3; 4; 5; 6; 7; 9]%N
